@@ -1,31 +1,4 @@
 ----------------------------- MODULE MCTemplLang -----------------------------
-(* Model-checking / enumeration instance of TemplLang: the concrete vocabularies. *)
-EXTENDS TemplLang
-
-NoAttrs == << >>
-AttrChoicesNone == { NoAttrs }
-AttrChoicesSmall == {
-    NoAttrs,
-    << [a |-> "const", n |-> "title", v |-> "k1"] >>,
-    << [a |-> "expr", n |-> "data-x", e |-> "E1"] >> }
-AttrChoicesFull == {
-    NoAttrs,
-    << [a |-> "const", n |-> "title", v |-> "k1"] >>,
-    << [a |-> "const", n |-> "title", v |-> "k2"], [a |-> "boolc", n |-> "hidden"] >>,
-    << [a |-> "expr", n |-> "data-x", e |-> "E1"] >>,
-    << [a |-> "boole", n |-> "disabled", c |-> "C1"], [a |-> "expr", n |-> "data-y", e |-> "E2"] >>,
-    << [a |-> "spread", m |-> "M1"] >>,
-    << [a |-> "class", e |-> "K1"], [a |-> "const", n |-> "title", v |-> "k1"] >>,
-    << [a |-> "cond", c |-> "C1", then |-> << [a |-> "class", e |-> "K1"] >>, else |-> << >>] >>,
-    << [a |-> "const", n |-> "title", v |-> "k4"], [a |-> "const", n |-> "lang", v |-> "k3"] >>,
-    << [a |-> "cond", c |-> "C1", then |-> << [a |-> "const", n |-> "title", v |-> "k1"] >>, else |-> << >>] >>,
-    << [a |-> "cond", c |-> "C2", then |-> << [a |-> "expr", n |-> "data-x", e |-> "E1"] >>,
-                                  else |-> << [a |-> "boolc", n |-> "hidden"] >>],
-       [a |-> "const", n |-> "lang", v |-> "k3"] >> }
-
-EnvSeqDef == <<
-    [c |-> [C1 |-> TRUE,  C2 |-> FALSE], l |-> [L1 |-> 2], s |-> "a"],
-    [c |-> [C1 |-> FALSE, C2 |-> TRUE],  l |-> [L1 |-> 1], s |-> "b"],
-    [c |-> [C1 |-> FALSE, C2 |-> FALSE], l |-> [L1 |-> 0], s |-> "z"] >>
-EnvSeqOne == << [c |-> [C1 |-> TRUE, C2 |-> FALSE], l |-> [L1 |-> 2], s |-> "a"] >>
+(* Model-checking / enumeration instance of TemplLang. *)
+EXTENDS TemplLang, TemplVocab
 =============================================================================
